@@ -251,6 +251,17 @@ fn distributor(cfg: &Cfg, rep: &mut Report, h: u64, variant: u32) {
     let mut claimed: BTreeSet<u32> = BTreeSet::new();
     let mut paid = vec![0i128; 6];
     for step in 0..60 {
+        // claimed flags must outlive any number of ledgers
+        if rng.chance(1, 6) {
+            let t = w.ledger() + *rng.pick(&[1u32, 17, 20, 5_000, 2_000_000]);
+            w.set_ledger(t);
+            rep.op(format!("ledger -> {t}"));
+            rep.count("ledger_moves");
+            for x in 0..20u32 {
+                let g: bool = invoke(e, &c, "is_claimed", args!(e, x)).unwrap();
+                rep.check("ref", g == claimed.contains(&x), &format!("C17/ref/{vname}/claimed-flag-after-ledger-move"), || format!("after moving to ledger {t}: is_claimed({x}) = {g}, model {}", claimed.contains(&x)));
+            }
+        }
         let k = rng.below(100);
         if k < 6 && variant != 3 {
             // root change: a new tree whose indices partly overlap the old ones
